@@ -322,6 +322,8 @@ class Interp(object):
         self.under_verification = None  # qualname of the function whose body is being verified
         self.inline_only = None
         self.recursion_hook = None
+        self.no_contracts = False       # witness mode: the engine interprets the real bodies all the way down
+        self.concrete_loops = False
         self.m = program.models
 
     # ---- path helpers
@@ -741,7 +743,7 @@ class Interp(object):
 
     def call_func(self, f, args, kw):
         q = f.qualname
-        if q != self.under_verification or (self.stack_has(f) and f.node.name != '__setattr__'):
+        if not self.no_contracts and (q != self.under_verification or (self.stack_has(f) and f.node.name != '__setattr__')):
             c = self.prog.contracts.get(q)
             if c is not None and (self.inline_only is None or q not in self.inline_only):
                 return c(self, f, args, kw)
@@ -1224,5 +1226,25 @@ class Interp(object):
             r = self.loop_rule(self, s, env, None)
             if r is not _MISSING:
                 return
-        # default: bounded unrolling is NOT a proof; refuse
+        if self.concrete_loops:
+            n = 0
+            broke = False
+            while self.truth(self.ev(s.test, env)):
+                n += 1
+                if n > 20000:
+                    raise Unsupported('concrete loop did not finish within 20000 iterations')
+                try:
+                    self.run(s.body, env)
+                except Brk:
+                    broke = True
+                    break
+                except Cont:
+                    continue
+            if not broke:
+                self.run(s.orelse, env)
+            return
+        # no loop contract: exact only when the loop does not iterate at all on this path
+        if not self.truth(self.ev(s.test, env)):
+            self.run(s.orelse, env)
+            return
         raise Unsupported('while loop without a loop contract (line %d)' % s.lineno)
